@@ -241,12 +241,14 @@ def run(cs, tier, run_index):
                     res.checks_sim += 1
                 else:
                     res.checks_workload += 1
+                res.margin(inv, (max(vals[lo]) - min(vals[hi])) / TAU)
                 if max(vals[lo]) > min(vals[hi]) + TAU:
                     res.violate(f"C09.ord.{inv}", lower_name=lo, lower=max(vals[lo]), upper_name=hi, upper=min(vals[hi]), **meta)
     if "nonsignaling" in vals:
         for lo in ("npa1", "npa2", "lower_bound", "unentangled", "unentangled_model"):
             if lo in vals:
                 res.checks_workload += 1
+                res.margin("npa_le_ns", (max(vals[lo]) - min(vals["nonsignaling"])) / TAU)
                 if max(vals[lo]) > min(vals["nonsignaling"]) + TAU:
                     res.violate("C09.ord.npa_le_ns", lower_name=lo, lower=max(vals[lo]), nonsignaling=min(vals["nonsignaling"]), **meta)
         res.checks_workload += 1
